@@ -187,7 +187,25 @@ def finite_droplets(droplets_iter):
 # ------------------------------------------------------------------ generation
 
 
+def _in_units(opts, spec):
+    """Option values that are lengths (minimal radius, interface width) are given in the grid's unit of length."""
+    u = float(spec.get("unit", 1.0))
+    if u != 1.0:
+        if np.isfinite(opts["minimal_radius"]):
+            opts["minimal_radius"] = opts["minimal_radius"] * u
+        if opts.get("interface_width") is not None:
+            opts["interface_width"] = opts["interface_width"] * u
+    return opts
+
+
 def gen(rng, kind, tier):
+    case = _gen(rng, kind, tier)
+    if case is not None and "opts" in case and "grid" in case:
+        _in_units(case["opts"], case["grid"])
+    return case
+
+
+def _gen(rng, kind, tier):
     if kind == "locate":
         spec = rand_grid(rng)
         return {"grid": spec, "field": field_desc(rng, spec), "opts": locate_opts(rng, geom.space_dim(spec))}
